@@ -29,8 +29,9 @@ func (e *Environment) AddAttributes(attributes map[string]*types.Item) error {
 			return err
 		}
 
-		// loading an attribute is not a modification
-		e.store[e.resolveName(name)] = obj
+		// loading an attribute is not a modification; an attribute keeps its own name,
+		// aliases only stand for names inside the expression
+		e.store[name] = obj
 	}
 
 	return nil
@@ -187,12 +188,9 @@ func (e *Environment) Apply(item map[string]*types.Item, aliases map[string]stri
 			continue
 		}
 
+		// the modified names are attribute names already: the aliases were resolved
+		// when the expression named them
 		v, found := e.store[k]
-
-		if alias, ok := aliases[k]; ok {
-			k = alias
-		}
-
 		if !found {
 			delete(item, k)
 
